@@ -19,10 +19,12 @@ StartEnd(n, ns0, ne0) ==
 (* (1-based); hi/lo: explicit threshold or NONE -> per-channel default: the range *)
 (* limit when the container has one (rng[c] = <<lo, hi>>), else no limit.         *)
 NONE == -999
+NANV == -777                        \* stands for a NaN reading (floating-point data): strictly between nothing
 HighLow(ev, chs, hi, lo, hasRange, rng) ==
   LET H(c) == IF hi # NONE THEN hi ELSE IF hasRange THEN rng[c][2] ELSE INF
       L(c) == IF lo # NONE THEN lo ELSE IF hasRange THEN rng[c][1] ELSE -INF
-  IN GOk([i \in 1..Len(ev) |-> \A j \in 1..Len(chs) : ev[i][chs[j]] < H(chs[j]) /\ ev[i][chs[j]] > L(chs[j])])
+  IN GOk([i \in 1..Len(ev) |-> \A j \in 1..Len(chs) :
+            ev[i][chs[j]] # NANV /\ ev[i][chs[j]] < H(chs[j]) /\ ev[i][chs[j]] > L(chs[j])])
 
 (* ellipse at rotation 0 with integer centre and semi-axes: inside or ON the      *)
 (* ellipse  <=>  b^2 (x-cx)^2 + a^2 (y-cy)^2 <= a^2 b^2  (exact integers)           *)
